@@ -28,11 +28,15 @@ deriving Repr, DecidableEq
 inductive IoErr
   | connectionAborted | invalidData | other | unexpectedEof | writeZero | connectionReset
   | transportRead | transportWrite | transportFlush | writersAlive
+  /-- kind `ConnectionAborted` *carrying* `parser::Error::AbortRequest` as its payload: the library's own
+  "the client aborted this request" signal, as opposed to a bare `connectionAborted` that a transport
+  (or a handler) produced. -/
+  | abortRequest
 deriving Repr, DecidableEq
 
 /-- `impl From<parser::Error> for io::Error` (kind only). -/
 def ioOfPErr : PErr → IoErr
-  | .abortRequest => .connectionAborted
+  | .abortRequest => .abortRequest
   | .unknownVersion _ | .invalidRequestLen _ | .nullRequest | .protocol => .invalidData
   | _ => .other
 
@@ -56,9 +60,16 @@ structure Transport where
   woken : Bool := false
   /-- a read is parked waiting for input: the transport holds the task's waker -/
   readWaker : Bool := false
+  /-- the transport's errors carry kind `ConnectionAborted` (as `ECONNABORTED` does) instead of a kind the
+  library never produces itself -/
+  abortKind : Bool := false
 deriving Repr
 
 namespace Transport
+
+def rdErr (t : Transport) : IoErr := if t.abortKind then .connectionAborted else .transportRead
+def wrErr (t : Transport) : IoErr := if t.abortKind then .connectionAborted else .transportWrite
+def flErr (t : Transport) : IoErr := if t.abortKind then .connectionAborted else .transportFlush
 
 def ev (t : Transport) (s : String) : Transport := { t with events := t.events ++ [s] }
 
@@ -70,14 +81,14 @@ def read (t : Transport) (cap : Nat) : Transport × Poll (Except IoErr Bytes) :=
     let t := { t with rd := rest }
     match a with
     | .pending => ({ t with woken := true }.ev s!"R{cap}:P", .pending)
-    | .err => (t.ev s!"R{cap}:E", .ready (.error .transportRead))
+    | .err => (t.ev s!"R{cap}:E", .ready (.error t.rdErr))
     | _ =>
       if t.input.isEmpty then
         if t.hold then ({ t with readWaker := true }.ev s!"R{cap}:W", .pending) else
         match t.endMode with
         | .eof => (t.ev s!"R{cap}:0", .ready (.ok []))
         | .pend => ({ t with readWaker := true }.ev s!"R{cap}:W", .pending)
-        | .err => (t.ev s!"R{cap}:E", .ready (.error .transportRead))
+        | .err => (t.ev s!"R{cap}:E", .ready (.error t.rdErr))
       else
         let k := match a with | .n k => min (max k 1) (min cap t.input.length) | _ => min cap t.input.length
         ({ t with input := t.input.drop k }.ev s!"R{cap}:{k}", .ready (.ok (t.input.take k)))
@@ -93,7 +104,7 @@ def writeV (t : Transport) (slices : List Bytes) (tag : String) : Transport × P
     match a with
     | .pending => ({ t with woken := true }.ev s!"{desc}:P", .pending)
     | .zero => (t.ev s!"{desc}:Z", .ready (.ok 0))
-    | .err => (t.ev s!"{desc}:E", .ready (.error .transportWrite))
+    | .err => (t.ev s!"{desc}:E", .ready (.error t.wrErr))
     | .all => ({ t with wlog := t.wlog ++ data }.ev s!"{desc}:{data.length}", .ready (.ok data.length))
     | .n k =>
       let k := min (max k 1) data.length
@@ -107,7 +118,7 @@ def flush (t : Transport) : Transport × Poll (Except IoErr Unit) :=
   match a with
   | .ok => (t.ev "F:O", .ready (.ok ()))
   | .pending => ({ t with woken := true }.ev "F:P", .pending)
-  | .err => (t.ev "F:E", .ready (.error .transportFlush))
+  | .err => (t.ev "F:E", .ready (.error t.flErr))
 
 end Transport
 
@@ -402,7 +413,7 @@ def closePoll (r : AReq) (st : CloseSt) (status : ExitStatus) (writersAlive : Na
       match r.writeablePoll (st == .inWriteable) m t with
       | (r, _, m, t, .ready) => .ok (r, m, t, .start)
       | (r, _, m, t, .pending) => .error (r, .inWriteable, m, t, .pending)
-      | (r, _, m, t, .err e) => if e == .connectionAborted then .ok (r, m, t, .start) else .error (r, .inWriteable, m, t, .err e)
+      | (r, _, m, t, .err e) => if e == .abortRequest then .ok (r, m, t, .start) else .error (r, .inWriteable, m, t, .err e)
       | (r, _, m, t, .panic s) => .error (r, .inWriteable, m, t, .panic s)
     | s => .ok (r, m, t, s)
   match p1 with
